@@ -412,17 +412,31 @@ class ExpressionDimensionsMapper(Mapper):
         step = expr.step.value if expr.step is not None else 1
         return as_tuple((expr.upper - lower) // step)
 
-    def map_sum(self, expr, *args, **kwargs):
+    def _combine_dimensions(self, children, *args, **kwargs):
         dim = (1,)
-        for ch in expr.children:
-            child_dim = self.rec(ch, *args, **kwargs)
+        for ch in children:
+            # Scalar operands (incl. fully subscripted array elements) conform with any shape
+            child_dim = self.rec(ch, *args, **kwargs) or (1,)
             if dim == (1,):
                 dim = child_dim
-            elif child_dim not in (dim, 1):
+            elif child_dim not in (dim, (1,)):
                 raise ValueError(f'Non-matching dimensions: {str(dim)} and {str(child_dim)}')
         return dim
 
+    def map_sum(self, expr, *args, **kwargs):
+        return self._combine_dimensions(expr.children, *args, **kwargs)
+
     map_product = map_sum
+
+    def map_quotient(self, expr, *args, **kwargs):
+        return self._combine_dimensions((expr.numerator, expr.denominator), *args, **kwargs)
+
+    def map_power(self, expr, *args, **kwargs):
+        return self._combine_dimensions((expr.base, expr.exponent), *args, **kwargs)
+
+    # The result shape of a function call is not known in general
+    map_inline_call = map_algebraic_leaf
+    map_constant = map_algebraic_leaf
 
     def map_inline_do(self, expr, *args, **kwargs):
         return self.rec(expr.bounds, *args, **kwargs)
